@@ -2,7 +2,8 @@
 # usage: tools/sweep.sh <tier> <seed> [props...]  — runs the checks sequentially, one summary line each
 tier=$1; seed=$2; shift 2
 props="$@"; [ -z "$props" ] && props="C01 C02 C03 C04 C05 C06 C07 C08 C09 C10 C11 C12 C13 C14 C15 C16 C17 C18 C19 C20"
-cd /verif
+cd "$(dirname "$(readlink -f "$0")")/.."
+mkdir -p .run/sweeps
 for p in $props; do
   s=$(date +%s)
   VERIF_SEED=$seed ./check $p --tier $tier > .run/sweeps/$p-$tier-$seed.log 2>&1
